@@ -15,8 +15,13 @@ Decided:
               before recover_wal, never after it - otherwise a replay persists an empty track over the committed one.
               The set of tracks is read off rebuild_indexes (Toc fields it can set to None that have an in-memory
               twin on Memvid), not listed by hand.
+  MPT-C27d    cards reach the next commit: cards live only in the handle's memory until a commit persists the track, and
+              Drop commits only a dirty handle. In put_internal a mutation of Memvid.memories_track that can follow a
+              commit() inside the same call (the auto-checkpoint) must itself be followed by `dirty = true` before the
+              Ok exit - otherwise the cards of the very put that tripped the checkpoint are dropped at close.
 Not decided: persistence round-trip of the card set (values)."""
 from . import lib, hirtree as H
+from .facts import op_place
 
 
 def loaders_before_replay(ctx, F):
@@ -60,8 +65,41 @@ def loaders_before_replay(ctx, F):
             ctx.ok('MPT-C27c', ol, 'Memvid.%s is loaded (%s) before recover_wal' % (t, loaders[0].key.split('::')[-1]), line=loaders[0].line)
 
 
+def cards_marked_dirty(ctx, F):
+    ctx.rule('MPT-C27d', 'put_internal: a memories_track mutation after the in-call commit is followed by dirty = true before Ok')
+    fn = ctx.need('MPT-C27d', 'Memvid::put_internal')
+    if fn is None:
+        return
+    ctx.touch(fn, len(fn.blocks))
+    muts = []
+    for c in fn.calls():
+        for a in c.args[:1]:
+            p = op_place(a)
+            if p is None or p.p:
+                continue
+            if any(t.field_owners() and t.field_owners()[-1] == ('Memvid', 'memories_track') for t in lib.mut_targets(fn, p.l)):
+                muts.append(c)
+    commits = fn.calls_to(('Memvid::commit', 'Memvid::commit_with_options'))
+    dirty = {st['bb'] for st in lib.field_stores(fn, 'Memvid', 'dirty') if st['rv']['k'] == 'use' and st['rv']['a'].get('k', {}).get('v') is True}
+    exits = {ex['bb'] for ex in fn.ok_exits() if ex['kind'] in ('ok', 'call')}
+    ctx.floor('MPT-C27d', len(muts), 1, 'mutations of Memvid.memories_track in put_internal')
+    if not commits:
+        ctx.ok('MPT-C27d', fn, 'no commit inside put_internal: the dirty flag set with the append covers the cards')
+        return
+    for m in muts:
+        ctx.evaluations += 1
+        after_commit = any(m.bb in fn.reachable((fn.success_block(c)[0] if fn.success_block(c)[0] is not None else c.target), avoid=dirty) for c in commits)
+        to_ok = bool(fn.reachable(m.target, avoid=dirty) & exits) if m.target is not None else False
+        if after_commit and to_ok:
+            ctx.bad('MPT-C27d', fn, '%s mutates the memories track after the in-call commit (auto-checkpoint) and Ok is reached without `dirty = true`: the cards of this put exist only in '
+                    'memory, Drop does not commit a clean handle, and they are lost at close' % m.key.split('::')[-1], line=m.line, sink='Memvid.memories_track', detail='cards-after-commit-not-dirty')
+        else:
+            ctx.ok('MPT-C27d', fn, '%s: cards are covered by dirty = true before Ok' % m.key.split('::')[-1], line=m.line)
+
+
 def run(ctx):
     loaders_before_replay(ctx, ctx.facts())
+    cards_marked_dirty(ctx, ctx.facts())
     ctx.rule('AGREE-C27a', 'get_at_time == get_current + one filter stage (effective_timestamp() <= timestamp) before the same sort and find')
     ctx.rule('AGREE-C27b', 'Memvid wrappers delegate to MemoriesTrack::get_current / get_at_time with their own arguments')
     F = ctx.facts()
